@@ -33,9 +33,17 @@ def split_cases(path):
     return cases
 
 
+def steer_of(case):
+    """the steer= field of the graph line ('' when the case is not steered)"""
+    for tok in case[0].split():
+        if tok.startswith("steer="):
+            return tok[6:]
+    return ""
+
+
 def case_key(case):
-    """identity of a case = its header without the case id / seed (the graph itself)"""
-    return "".join(l for l in case if l.split(" ", 1)[0] in ("task", "try", "top"))
+    """identity of a case = its header without the case id / seed (the graph itself) + the steering policy"""
+    return steer_of(case) + "|" + "".join(l for l in case if l.split(" ", 1)[0] in ("task", "try", "top"))
 
 
 def nontrivial(case):
@@ -127,6 +135,32 @@ def account(ctx, results):
         evs = [l.split() for l in trace if l[:1].isdigit()]
         for e in evs:
             ev_kinds[e[1] + ((":" + e[-1]) if e[1] in ("ret", "done", "mwait", "root", "acc", "rej") and len(e) > 2 and not e[-1].isdigit() else "")] += 1
+        st = steer_of(case)
+        if st:
+            # steered case: which handlers were really held (their first command was recorded while the fate of the
+            # awaited handler was still open) is not visible in the trace; count the policy and the stalls
+            for m in sorted(set(x.split(":")[1] for x in st.split(","))):
+                ctx.histogram["steer:mode-" + m] += 1
+            ctx.histogram["steer:stalls"] += sum(1 for e in evs if e[1] == "stall")
+        # finding KF-C16-1: a handler accepted into an already failed context runs detached from its owner
+        roles = {l.split()[1]: l.split()[2] for l in case if l.startswith("task ")}
+        closed_at = {e[2]: int(e[0]) for e in evs if e[1] == "done"}
+        owner_of = {}
+        for l in case:
+            if l.startswith("try "):
+                f = l.split()
+                o = f[2].split("=")[1].split(":")[0]
+                for h in f[4:7]:
+                    h = h.split("=")[1]
+                    if h != "-":
+                        owner_of[h] = o
+        for e in evs:
+            if e[1] == "hacc" and e[2] in owner_of and owner_of[e[2]] in closed_at:
+                if closed_at.get(e[2], 1 << 60) > closed_at[owner_of[e[2]]]:
+                    ctx.histogram["finding:KF-C16-1-handler-open-when-owner-closed"] += 1
+                    ctx.extra.setdefault("kf_c16_1_cases", [])
+                    if len(ctx.extra["kf_c16_1_cases"]) < 3:
+                        ctx.extra["kf_c16_1_cases"].append(case[0].strip())
         fails = any(e[1] == "done" and e[-1] == "fail" for e in evs)
         rej = any(e[1] == "rej" for e in evs)
         ctx.note_case(case_key(case), nontrivial=nt and len(evs) > 4,
@@ -189,10 +223,12 @@ def report_rejects(ctx, go, model, results, prop, limit=3):
         if n > limit:
             continue
         # how often does the same case fail when re-run (the interleaving is the Go scheduler's)?
-        again = run_shards(ctx, go, model, [case] * 10, "rerun%d" % n)
+        # (a stalled case costs the controller's generous wait each time: 3 re-runs instead of 10)
+        k = 3 if "stall" in reason else 10
+        again = run_shards(ctx, go, model, [case] * k, "rerun%d" % n)
         nrej = sum(1 for _, _, v in again if v != "accept")
         detail = ("the implementation's trace violates the property: monitor says `%s` (clause named by its reason; "
-                  "re-running the same case 10 times: %d rejected)" % (verdict, nrej))
+                  "re-running the same case %d times: %d rejected)" % (verdict, k, nrej))
         ann = ["monitor: " + verdict] + ["impl-trace: " + l.strip() for l in trace if l[:1].isdigit()][:400]
         ctx.violation("impl-vs-spec", detail, lines=[l for l in case] + ([] if case[-1].startswith("end") else ["end"]),
                       concrete=True, annotations=ann)
@@ -208,7 +244,9 @@ def genstats(ctx, err_text):
                     ctx.histogram["gen:" + k] += int(v)
 
 
-def run_family(ctx, prop, family, n_quick, n_thorough, corpus_props):
+def run_family(ctx, prop, family, n_quick, n_thorough, corpus_props, steered=None):
+    """steered = (n_quick, n_thorough) cases of the steered family c16s (deterministic enumeration of 288 combinations
+    per round) or None"""
     failed = ctx.lean_obligations(props_module="Goat.Props." + prop)
     go = ctx.build_go("pipeline")
     model = ctx.build_model("m_pipeline")
@@ -225,12 +263,28 @@ def run_family(ctx, prop, family, n_quick, n_thorough, corpus_props):
         ctx.fatal("generator failed: " + err[-500:])
     genstats(ctx, err)
     cases += split_cases(gen)
+    nsteer = 0
+    if steered:
+        nsteer = ctx.pick(*steered)
+        gens = ctx.path("gens.cases")
+        rc, err = ctx.run([go, "gen", "c16s", str(nsteer)], stdout=gens, timeout=600)
+        if rc != 0:
+            ctx.fatal("generator (steered family) failed: " + err[-500:])
+        genstats(ctx, err)
+        cases += split_cases(gens)
     ctx.rule = ("%d corpus cases + %d generated task graphs (family %s, VERIF_SEED=%d): random DAGs of 1-16 tasks with wait lists over "
                 "earlier siblings (8%% deliberately invalid: unknown / later / own name), failing commands in any subset of tasks, "
                 "nested pip:run submissions and pip:try blocks to depth 3, handler subsets and failing handlers enumerated, bodies "
                 "blocked on harness gates released in PRNG order so that tasks overlap; each case is executed by the real app and "
                 "its event trace is decided by the Lean monitor. non-trivial = >= 2 tasks with a wait edge / nested submission / "
-                "try block and > 4 events; distinct = distinct graphs (hash of the task/try/top lines)" % (ncorpus, n, family, ctx.seed))
+                "try block and > 4 events; distinct = distinct graphs (hash of the task/try/top lines + steering policy)"
+                % (ncorpus, n, family, ctx.seed))
+    if steered:
+        ctx.rule += ("; + %d STEERED cases (family c16s: nesting flat / in the body of an outer try / in the finally handler of an "
+                     "outer try x body ok / failing x finally present / failing x selected handler present / failing x other "
+                     "handler absent / present / failing x which handler is held at its first command and until when (s, S, f, F) "
+                     "= 288 combinations per round): the gate controller holds one handler of the try until it has seen the fate "
+                     "of the other, waits 10 s, and records `stall` otherwise" % nsteer)
     results = run_shards(ctx, go, model, cases, "main")
     account(ctx, results)
     nrej = report_rejects(ctx, go, model, results, prop)
@@ -242,10 +296,25 @@ def run_family(ctx, prop, family, n_quick, n_thorough, corpus_props):
     sample = [c for c, _, _ in results if sum(1 for l in c if l.startswith("task ")) <= 16][:ctx.pick(150, 3000)]
     runs, bad, incomplete = model_selfrun(ctx, model, sample)
     ctx.extra["model_selfrun"] = dict(graphs=len(sample), runs=runs, rejected=len(bad), incomplete_runs=incomplete)
+    if nsteer:
+        # the steered graphs under their steering policy (model `sysS`): sampled support of stall_free /
+        # steered_all_finish — every run must be accepted and complete
+        ssample = [c for c, _, _ in results[-nsteer:]][:ctx.pick(100, 2000)]
+        sruns, sbad, sinc = model_selfrun(ctx, model, ssample)
+        ctx.extra["model_selfrun_steered"] = dict(graphs=len(ssample), runs=sruns, rejected=len(sbad), incomplete_runs=sinc)
+        bad += sbad
+        if sinc:
+            ctx.violation("impl-vs-model", "the compiled Lean model did not finish %d steered runs within 20000 scheduling "
+                          "decisions (contradicts theorems stall_free / steered_all_finish unless the schedule was unlucky)"
+                          % sinc, concrete=False)
     if bad:
         ctx.violation("impl-vs-model", "the compiled Lean model produced a trace its own monitor rejects (contradicts theorem "
                       "model_runs_accepted): %s" % bad[0], concrete=False)
-    ctx.extra["cases"] = dict(corpus=ncorpus, generated=n, rejected=nrej)
+    ctx.extra["cases"] = dict(corpus=ncorpus, generated=n, steered=nsteer, rejected=nrej)
+    if ctx.histogram.get("finding:KF-C16-1-handler-open-when-owner-closed"):
+        ctx.notes.append("finding KF-C16-1 observed in %d traces (a handler accepted into an already failed context is still "
+                         "open when its owner closes; tolerated by the clause `acceptedAfterCause`, reported)"
+                         % ctx.histogram["finding:KF-C16-1-handler-open-when-owner-closed"])
     if failed:
         def searcher():
             if nrej:
@@ -273,7 +342,8 @@ def run_family(ctx, prop, family, n_quick, n_thorough, corpus_props):
     ctx.trusted_base += [
         "PARTIAL level: the theorems are about the orchestration model; that the running system realises it is sampled by "
         "trace conformance (monitor accepts every recorded trace), not proved",
-        "Go harness harness/cmd/pipeline (event recorder, SID-to-task mapping, gate controller) and the wire parser of Driver/Pipeline.lean",
+        "Go harness harness/cmd/pipeline (event recorder, SID-to-task mapping, gate controller, the recording wrapper around the "
+        "PipRunner service that sees handler submissions, the steering controller) and the wire parser of Driver/Pipeline.lean",
     ]
     ctx.notes.append("interleavings are chosen by the Go scheduler and the PRNG-driven gate controller; a rejected case is re-run "
                      "10 times and the count is recorded in the replay file")
